@@ -12,6 +12,7 @@ import subprocess
 ROOT = os.path.dirname(os.path.dirname(os.path.abspath(__file__)))
 
 MAP = [
+    ("P2WSHSortedMulti.parse accepts nothing but an optional checksum after the descriptor body", "C16", "the '#' replaced by any other character: the nine trailing characters were ignored and the descriptor accepted without any checksum comparison"),
     ("PSBTIn.validate refuses a non-witness UTXO for a native witness input", "C11", "p2wsh input described by a full previous transaction instead of a witness UTXO: nothing tied the attached (foreign, 1-of-n) witness script to the UTXO and the PSBT was summarised; partial signatures of such inputs were checked against the legacy digest"),
     ("PSBTOut.validate accepts a WitnessScript only for a p2wsh or p2sh-p2wsh output", "C11", "change metadata kept while the output became OP_1 <sha256(witness script)> (P2TR shaped, unspendable): still labelled change"),
     ("PSBTIn.validate requires the two UTXO forms of an input to agree", "C11", "input carrying both a previous transaction and a contradicting witness UTXO amount: the last record won and the fee of the summary was wrong"),
